@@ -76,6 +76,11 @@ func getMsgKey(q *dns.Msg) string {
 	return utils.BytesToStringUnsafe(buf)
 }
 
+// answersQuestion reports whether r carries the (only) question of q.
+func answersQuestion(r, q *dns.Msg) bool {
+	return len(r.Question) == 1 && len(q.Question) == 1 && r.Question[0] == q.Question[0]
+}
+
 type item struct {
 	resp           *dns.Msg
 	storedTime     time.Time
